@@ -465,7 +465,7 @@ impl Check for C08 {
                             st.count("separators:comment");
                             // a comment directly after `/` would read as `///…`: keep them apart
                             let lead = if toks[k - 1].text.ends_with('/') { " " } else { "" };
-                            format!("{}//{}\n", lead, *r.pick(&["", " x", " \"", " als (", "/"]))
+                            format!("{}//{}\n", lead, *r.pick(&["", " x", " \"", " als (", "/", " één", " 💖💖 stel", "é", " — ‰ ∑ 𝔘", "\t\u{a0}\\"]))
                         }
                         _ => {
                             st.count("separators:none");
